@@ -65,12 +65,19 @@ Theorem C15_failed_refresh_is_noop : forall crc ops st,
 Proof. exact failed_refreshes_noop. Qed.
 Print Assumptions C15_failed_refresh_is_noop.
 
+(** A download whose pending file cannot replace the list's file is such a
+    failure as well. *)
+Theorem C15_rename_failure_fails : forall crc d, fails crc (ORenameFail d).
+Proof. exact rename_failure_fails. Qed.
+Print Assumptions C15_rename_failure_fails.
+
 (** In a refresh where other lists may succeed: the list whose source fails
-    keeps its file and its entry (rule count, checksum) unchanged. *)
+    keeps its file (the same bytes, not replaced) and its entry (name, rule
+    count, checksum) unchanged. *)
 Theorem C15_failed_list_is_noop : forall crc i b a force due oc st,
   fails crc (oc i) ->
   let st' := refresh crc b a force due oc st in
-  fget i (r_files st') = fget i (r_files st) /\
+  fentry i (r_files st') = fentry i (r_files st) /\
   (forall k l, nth_error (r_block st) k = Some l -> f_id l = i -> nth_error (r_block st') k = Some l) /\
   (forall k l, nth_error (r_allow st) k = Some l -> f_id l = i -> nth_error (r_allow st') k = Some l).
 Proof. exact refresh_failed_list_noop. Qed.
@@ -89,23 +96,20 @@ Print Assumptions C15_failed_list_in_force.
     reported as an update. *)
 Theorem C15_same_checksum_not_written : forall crc l d re st fs,
   parse crc d re = (st, None) -> p_sum st = f_sum l ->
-  update_one crc l (OBody d re) fs =
-    ({| u_id := f_id l; u_updated := false; u_err := false; u_count := 0; u_sum := f_sum l |}, fs).
+  update_one crc l (OBody d re) fs = ({| u_updated := false; u_err := false; u_list := l |}, fs).
 Proof. exact update_one_same_checksum. Qed.
 Print Assumptions C15_same_checksum_not_written.
 
 (** The file changes only on success with a new checksum, and then it holds a
     normal form whose re-parse reproduces it with the recorded count and
-    checksum.  (Middle case: the replacement of the pending file fails after a
-    complete body was parsed; the file is left alone and the list keeps its
-    checksum, although the code reports an update with rule count 0.) *)
+    checksum; in every other case (also when the pending file cannot replace
+    the list's file) neither the files nor the structure worked on change and
+    no update is reported. *)
 Theorem C15_written_is_normal_form : forall crc l o fs,
   let '(u, fs') := update_one crc l o fs in
-  (u_updated u = false /\ fs' = fs) \/
-  (exists d, o = ORenameFail d /\ fs' = fs /\ u_updated u = true /\ u_err u = true /\
-             u_count u = 0 /\ u_sum u = f_sum l) \/
+  (u_updated u = false /\ fs' = fs /\ u_list u = l) \/
   (exists d re st, o = OBody d re /\ parse crc d re = (st, None) /\ p_sum st <> f_sum l /\
-     u_updated u = true /\ u_err u = false /\ u_count u = p_count st /\ u_sum u = p_sum st /\
+     u_updated u = true /\ u_err u = false /\ u_list u = filled l st /\
      fs' = fset (f_id l) (output st) fs /\
      exists st', parse crc (output st) false = (st', None) /\ output st' = output st /\
                  p_count st' = p_count st /\ p_sum st' = p_sum st).
@@ -117,6 +121,7 @@ Print Assumptions C15_written_is_normal_form.
 Example C15_refresh_premises_satisfiable :
   fget 1 (r_files RExamples.st1) = Some RExamples.good /\
   map f_count (r_block RExamples.st1) = [1] /\
+  map f_name (r_block RExamples.st1) = [[76; 105; 115; 116; 32; 49]] /\
   verdict (r_engine RExamples.st1) [112;49] = 2 /\
   fails crc32_update (OBody RExamples.html false) /\
   fails crc32_update (OBody (firstn 3 RExamples.good) true) /\
